@@ -5,7 +5,7 @@ cd "$(dirname "$0")/.."
 ids=${@:-$(ls seeded)}
 for sid in $ids; do
   prop=$(python3 -c "import json;print(json.load(open('seeded/$sid/meta.json'))['property'])")
-  if ! git -C /repo apply seeded/$sid/patch.diff 2>/dev/null; then echo "$sid: PATCH DOES NOT APPLY"; continue; fi
+  if ! git -C /repo apply "$PWD/seeded/$sid/patch.diff" 2>/dev/null; then echo "$sid: PATCH DOES NOT APPLY"; continue; fi
   out=$(./check $prop 2>&1); rc=$?
   git -C /repo checkout -- .
   v=$(echo "$out" | grep -c '^VIOLATION')
